@@ -17,6 +17,7 @@ import (
 	"net/url"
 	"path"
 	"regexp"
+	"strconv"
 	"sort"
 	"strings"
 	"sync"
@@ -337,6 +338,7 @@ type performer struct {
 	script map[string][]Behaviour
 	log    []Delivery
 	sent   map[string]bool // client-sent header values (to tell minted ids from relayed ones)
+	clFromHeader bool      // Response.ContentLength from the scripted Content-Length header (-1 when absent)
 	hook   func(d *Delivery, b *Behaviour)
 }
 
@@ -376,14 +378,27 @@ func (p *performer) Do(req *http.Request) (*http.Response, error) {
 	if b.Err {
 		return nil, errors.New("dial tcp: connection refused (scripted)")
 	}
+	// the scripted origin answers 304 only to a conditional request
+	if b.Status == 304 && req.Header.Get("If-None-Match") == "" && req.Header.Get("If-Modified-Since") == "" {
+		b = Behaviour{Status: 200, Hdrs: []KV{{"Content-Type", "text/plain"}, {"Content-Length", "13"}}, Body: "unconditional"}
+	}
 	h := http.Header{}
 	for _, kv := range b.Hdrs {
 		h.Add(kv.K, kv.V)
 	}
+	cl := int64(len(b.Body))
+	if p.clFromHeader {
+		cl = -1
+		if v := h.Get("Content-Length"); v != "" {
+			if n, err := strconv.ParseInt(v, 10, 64); err == nil {
+				cl = n
+			}
+		}
+	}
 	return &http.Response{
 		Status: fmt.Sprintf("%d %s", b.Status, http.StatusText(b.Status)), StatusCode: b.Status,
 		Proto: "HTTP/1.1", ProtoMajor: 1, ProtoMinor: 1,
-		Header: h, Body: ioutil.NopCloser(strings.NewReader(b.Body)), ContentLength: int64(len(b.Body)),
+		Header: h, Body: ioutil.NopCloser(strings.NewReader(b.Body)), ContentLength: cl,
 		Request: req,
 	}, nil
 }
